@@ -107,6 +107,7 @@ func (its *document) Patch(patches ...jsondiff.Operation) errors.OrdaError {
 }
 
 func (its *document) GetByPath(path string) (Document, errors.OrdaError) {
+	defer its.readLock()()
 	path = strings.Trim(path, "/")
 	paths := strings.Split(path, "/")
 	if len(paths) == 1 && paths[0] == "" {
@@ -218,10 +219,12 @@ func (its *document) ResetSnapshot() {
 }
 
 func (its *document) ToJSON() interface{} {
+	defer its.readLock()()
 	return its.snapshot().ToJSON()
 }
 
 func (its *document) GetValue() interface{} {
+	defer its.readLock()()
 	return its.snapshot().ToJSON()
 }
 
@@ -308,6 +311,7 @@ func (its *document) DeleteInObject(key string) (Document, errors.OrdaError) {
 
 // GetFromObject returns the child associated with the given key as a Document.
 func (its *document) GetFromObject(key string) (Document, errors.OrdaError) {
+	defer its.readLock()()
 	if err := its.assertLocalOp("GetFromObject", TypeJSONObject, true); err != nil {
 		return nil, err
 	}
@@ -329,6 +333,7 @@ func (its *document) GetFromArray(pos int) (Document, errors.OrdaError) {
 }
 
 func (its *document) GetManyFromArray(pos int, numOfNodes int) ([]Document, errors.OrdaError) {
+	defer its.readLock()()
 	if err := its.assertLocalOp("GetManyFromArray", TypeJSONArray, true); err != nil {
 		return nil, err
 	}
